@@ -42,6 +42,39 @@ SEED_POOL = [0, 0, 1, 2, 7, 42, 12345, 2 ** 32, 2 ** 64 + 1, 2 ** 60 + 1, 179045
 LIB_CALLS = ["optimal_grouping", "equivalent_layers", "circle", "ft2", "centre_of_gravity", "phase_covariance", "covmat", "cn2_to_r0"]
 
 
+ANALYSES = ["rms_contrast", "image_contrast", "centre_of_gravity", "centre_of_gravity_thr", "brightest_pixel", "azimuthal_average",
+            "structure_function", "ft2", "binImgs", "encircled_energy"]
+
+
+def analyse(name, scrn):
+    """a read-only analysis of a phase screen through the public API (results and exceptions are ignored)"""
+    import aotools
+    from aotools.turbulence import slopecovariance
+    try:
+        if name == "rms_contrast":
+            aotools.image_processing.rms_contrast(scrn)
+        elif name == "image_contrast":
+            aotools.image_processing.image_contrast(scrn)
+        elif name == "centre_of_gravity":
+            aotools.centre_of_gravity(scrn)
+        elif name == "centre_of_gravity_thr":
+            aotools.centre_of_gravity(scrn, threshold=0.3)
+        elif name == "brightest_pixel":
+            aotools.brightest_pixel(scrn, 0.3)
+        elif name == "azimuthal_average":
+            aotools.azimuthal_average(scrn)
+        elif name == "structure_function":
+            slopecovariance.calculate_structure_function(scrn)
+        elif name == "ft2":
+            aotools.ft2(scrn, 0.1)
+        elif name == "binImgs":
+            aotools.binImgs(scrn, 2)
+        elif name == "encircled_energy":
+            aotools.encircled_energy(scrn)
+    except Exception:
+        pass
+
+
 def warm():
     return screens.warm()
 
@@ -65,7 +98,10 @@ def _seed_key(s):
 
 def gen_noise(rng, n_actors):
     k = rng.weighted([("np_seed", 4), ("np_draw", 3), ("np_set_state", 1), ("py_seed", 1), ("py_draw", 1), ("clock", 3),
-                      ("lib", 3), ("spawn", 2), ("gc", 0.5), ("printopts", 0.5), ("np_default_rng", 1), ("numba_threads", 1.5), ("fork", 1), ("failing_call", 1.5)])
+                      ("lib", 3), ("spawn", 2), ("gc", 0.5), ("printopts", 0.5), ("np_default_rng", 1), ("numba_threads", 1.5), ("fork", 1), ("failing_call", 1.5), ("analyse", 2.5)])
+    if k == "analyse":
+        # the caller passes the current screen of one of its screen objects to an analysis function of the library
+        return {"k": k, "on": rng.randrange(n_actors), "name": rng.choice(ANALYSES)}
     if k == "failing_call":
         return {"k": k, "v": rng.randrange(100)}
     if k == "numba_threads":
@@ -143,7 +179,11 @@ def gen_plan(rng, tier, index=0):
                     actors.append({"kind": kind, "params": params, "seed": s2, "rows": rows, "twin_of": b, "group": g})
         n_un = r.weighted([(0, 2), (1, 1), (2, 3), (3, 1)]) if g else 2
         for _ in range(n_un):
-            actors.append({"kind": kind, "params": params, "seed": "none", "rows": min(rows, 3), "twin_of": None, "group": g})
+            ur = min(rows, 3)
+            # an unseeded screen object re-used for a new realisation (make_initial_screen() in a Monte-Carlo loop)
+            actors.append({"kind": kind, "params": params, "seed": "none", "rows": ur, "twin_of": None, "group": g,
+                           "restart": (r.sub("unseeded-restart", len(actors)).randint(0, ur - 1)
+                                       if (kind in ("VK", "KOL") and ur >= 1 and r.sub("unseeded-restart?", len(actors)).chance(0.4)) else None)})
     # the interleaving: the scheduler picks the next actor; twins are never forced adjacent or apart
     r = rng.sub("sched")
     bag = []
@@ -338,6 +378,16 @@ def _execute(plan, keep_log=False):
                 if k == "failing_call":
                     screens.failing_call(op.get("v", 0))
                     res.count("fault.noise.failing_call")
+                elif k == "analyse":
+                    tgt = actors[op["on"] % n]
+                    scr = None
+                    if getattr(tgt, "obj", None) is not None and not tgt.dead:
+                        scr = tgt.obj.scrn
+                    elif getattr(tgt, "kept", None) is not None:
+                        scr = tgt.kept[0]
+                    if scr is not None:
+                        analyse(op["name"], scr)
+                        res.count("fault.noise.analyse_current_screen")
                 elif k == "lib":
                     lib_call(op["name"], op.get("v", 0))
                     res.count("fault.noise.lib." + op["name"])
@@ -409,6 +459,15 @@ def _execute(plan, keep_log=False):
                                 "actor %d (%s, seed %r): after make_initial_screen() at op %d the %s differs from what the same seed "
                                 "gave after construction (%s vs %s)" % (i, s["kind"], s["seed"], ra, "initial screen" if j == 0 else "row %d" % j, tr[ra + j], tr[j]), -1)
                     break
+    for i, s in enumerate(specs):
+        ra = getattr(actors[i], "restarted_at", None)
+        if ra is not None and s["seed"] == "none":
+            tr = actors[i].trace
+            res.count("oracle.unseeded_restarts_compared")
+            if ra < len(tr) and tr[0][0] == "ok" and tr[ra] == tr[0]:
+                res.violate("unseeded", "C06:unseeded-restart-repeats-the-screen:%s" % s["kind"],
+                            "actor %d (%s, unseeded): make_initial_screen() at op %d produced the same initial screen as the "
+                            "construction did (%s): unseeded realisations must differ" % (i, s["kind"], ra, tr[0]), -1)
     for i, s in enumerate(specs):
         t = s["twin_of"]
         if t is None:
@@ -517,6 +576,11 @@ def simplify(plan):
                 if l == i:
                     continue
                 st = {"noise": dict(st["noise"], like=l - (1 if l > i else 0))}
+            elif st["noise"].get("k") == "analyse":
+                l = st["noise"]["on"] % n
+                if l == i:
+                    continue
+                st = {"noise": dict(st["noise"], on=l - (1 if l > i else 0))}
             new_steps.append(st)
         c["steps"] = new_steps
         if c["actors"]:
